@@ -16,6 +16,12 @@ Case protocol (coq/C16/Model.v run_case, harness/h_c16.cpp):
                                                                        -> |accu| accu t consumed elems..
       8 3 ty d n v.. m w..        accu = ""; xconvert(accu, l1); accu += char(d); xconvert(accu, l2) -> |accu| accu |part1| ok1 m1 e.. ok2 m2 e..
       8 4 ty n v..                accu = "["; xconvert(accu, vec); accu += "]"; string_cast(accu)    -> |accu| accu ok m elems..
+  9 k ...            the STREAM-PARSED types (30 signed char, 31 unsigned char, 32 short, 33 unsigned short): no typed overload, served by
+                     the fall back template xconvert(const char*, T&, const char**, double) (std::istream over the string, end from tellg())
+      9 0 ty e len bytes      scalar                                   -> tok val end errno cast_ok cast_val
+      9 1 ta tb e len bytes   pair<A,B>, A / B in {30..33, char, int}   -> sum first second end cast_ok
+      9 2 ty m e len bytes    m = 0 vector<T>, m = 1..3 array T[m]      -> t end elems.. cast_ok   (t end -996: the list parser made no progress)
+      9 4                     <climits> of the narrow types
 ty: 0 bool 1 char 2 int 3 unsigned 4 long 5 unsigned long 6 long long 7 unsigned long long 8..16 the library's enums
     17 Level_t 18 Sparse_t 19 Neg_t 20 Off_t 21 Unord_t 22 One_t: enumerations harness/h_c16.cpp declares with the PUBLIC macros
     (scalars: ops 0 1 6; vectors: ops 4 5; pairs: <E,int>, <int,E>, <E,E>)
@@ -41,7 +47,9 @@ RANGE = {INT: (-2 ** 31, 2 ** 31 - 1), UINT: (0, 2 ** 32 - 1), LONG: (-2 ** 63, 
 NUMERIC = [INT, UINT, LONG, ULONG, LLONG, ULLONG]
 TYNAME = {0: 'bool', 1: 'char', 2: 'int', 3: 'unsigned', 4: 'long', 5: 'unsigned long', 6: 'long long', 7: 'unsigned long long',
           8: 'Head_t', 9: 'Body_t', 10: 'Value_t', 11: 'Heuristic_t', 12: 'Directive_t', 13: 'Theory_t', 14: 'Tuple_t',
-          15: 'Clause_t', 16: 'Statistics_t', 17: 'Level_t', 18: 'Sparse_t', 19: 'Neg_t', 20: 'Off_t', 21: 'Unord_t', 22: 'One_t'}
+          15: 'Clause_t', 16: 'Statistics_t', 17: 'Level_t', 18: 'Sparse_t', 19: 'Neg_t', 20: 'Off_t', 21: 'Unord_t', 22: 'One_t',
+          30: 'signed char', 31: 'unsigned char', 32: 'short', 33: 'unsigned short'}
+STREAM = [30, 31, 32, 33]            # types without a typed overload: parsed by the stream fall back template
 ENUM_HDR = {8: 'potassco/basic_types.h', 9: 'potassco/basic_types.h', 10: 'potassco/basic_types.h', 11: 'potassco/basic_types.h',
             12: 'potassco/basic_types.h', 13: 'potassco/theory_data.h', 14: 'potassco/theory_data.h', 15: 'potassco/clingo.h',
             16: 'potassco/clingo.h'}
@@ -453,6 +461,241 @@ def oracle8(c, obs):
     return out
 
 
+# ------------------------------------------------------------------------------------------------
+# op 9: the stream-parsed types.  The reference below is the oracle's own reading of the C++ library rules the fall back template
+# relies on (std::istream >> T with skipws|dec in the classic locale) and of the pair / convert_seq templates of the header; it shares
+# nothing with the Coq model.  What C16 demands of these calls: the end position lies inside the string (and is the one the text
+# determines), the value is the one the text determines, errno untouched, string_cast succeeds iff nothing is left.
+# ------------------------------------------------------------------------------------------------
+OUTSIDE = 'accept:end-position-outside-string'
+SIMPLE_INT = re.compile(rb'[ \t\n\v\f\r]*([+-]?)(0|[1-9][0-9]{0,8})(?![0-9xX])')
+
+
+def ref_stream(ty, s):
+    """(ok, value, end) of xconvert(s, T&, &end) for a stream-parsed T; None: no reference for this text"""
+    i = 0
+    while i < len(s) and s[i] in SPACE:
+        i += 1
+    if ty in (30, 31):           # operator>>(istream&, signed/unsigned char&): ONE character, whatever it is
+        if i == len(s):
+            return (0, 0, 0)
+        ch = s[i]
+        return (1, ch - 256 if (ty == 30 and ch >= 128) else ch, i + 1)
+    if ty in (32, 33):           # num_get, decimal: sign, digits
+        m = re.match(rb'([+-]?)([0-9]+)', s[i:])
+        if not m:
+            return (0, 0, 0)
+        mag, neg, end = int(m.group(2)), m.group(1) == b'-', i + m.end()
+        if ty == 32:
+            v = -mag if neg else mag
+            return (1, v, end) if -2 ** 15 <= v <= 2 ** 15 - 1 else (0, 0, 0)
+        if mag > 2 ** 16 - 1:
+            return (0, 0, 0)
+        return (1, (-mag) % 2 ** 16 if neg else mag, end)
+    if ty == CHAR:
+        if not s:
+            return (0, 0, 0)
+        if s[:2] in CHAR_ESC:
+            return (1, CHAR_ESC[s[:2]], 2)
+        return (1, s[0], 1)
+    if ty == INT:                # only plain decimal numerals (what the op 9 generator writes into int components)
+        m = SIMPLE_INT.match(s)
+        if not m:
+            return (0, 0, 0) if (not s or s[:1] in b',)]') else None
+        return (1, int(m.group(1) + m.group(2)), m.end())
+    return None
+
+
+def ref_pair9(ta, tb, s):
+    n, ps = 0, 0
+    if s[:1] == b'(':
+        ps, n = 1, 1
+    ra = ref_stream(ta, s[n:])
+    if ra is None:
+        return None
+    oka, a, ea = ra
+    n += ea
+    okb, b = 0, 0
+    if oka and s[n:n + 1] == b',' and len(s) > n + 1:
+        rb = ref_stream(tb, s[n + 1:])
+        if rb is None:
+            return None
+        okb, b, eb = rb
+        n += 1 + eb
+    sm = 0
+    if not ps or s[n:n + 1] == b')':
+        n += ps
+        if okb:
+            sm += 1
+        if okb or (oka and n == len(s)):
+            sm += 1
+    if not sm:
+        n = 0
+    return sm, (a if sm >= 1 else 0), (b if sm >= 2 else 0), n
+
+
+def ref_seq9(ty, s, maxlen):
+    n, b, els = 0, 0, []
+    if s[:1] == b'[':
+        b, n = 1, 1
+    while len(els) != maxlen:
+        r = ref_stream(ty, s[n:])
+        if r is None:
+            return None
+        ok, v, e = r
+        if not ok:
+            break
+        n += e
+        els.append(v)
+        if n >= len(s) or s[n:n + 1] != b',' or n + 1 >= len(s):
+            break
+        n += 1
+    if not b or s[n:n + 1] == b']':
+        n += b
+    else:
+        n = 0
+    return els, n
+
+
+def dec9(c):
+    k = c[1]
+    if k == 0:
+        return {'k': 0, 'ty': c[2], 'e': c[3], 's': cstr(c[5:5 + max(c[4], 0)])}
+    if k == 1:
+        return {'k': 1, 'ta': c[2], 'tb': c[3], 'e': c[4], 's': cstr(c[6:6 + max(c[5], 0)])}
+    if k == 2:
+        return {'k': 2, 'ty': c[2], 'm': c[3], 'e': c[4], 's': cstr(c[6:6 + max(c[5], 0)])}
+    return {'k': k}
+
+
+def whole_sig(cok, ok, k, s):
+    want = 1 if (ok and k == len(s)) else 0
+    if cok != want:
+        return ['whole:string_cast-accepts-with-unparsed-rest' if cok else 'whole:string_cast-rejects-fully-parsed-string']
+    return []
+
+
+def oracle9(c, obs):
+    d = dec9(c)
+    k = d['k']
+    sig = []
+    if k == 4:
+        return [] if obs == [-2 ** 7, 2 ** 7 - 1, 2 ** 8 - 1, -2 ** 15, 2 ** 15 - 1, 2 ** 16 - 1] else ['platform:narrow-type-limits']
+    s = d['s']
+    if k == 0:
+        tok, val, end, err, cok, cval = obs
+        if end < 0 or end > len(s):
+            sig.append(OUTSIDE)
+        if not tok and end != 0:
+            sig.append('reject:end-position-moved')
+        if err != (1 if d['e'] else 0):
+            sig.append('stream:errno-changed')
+        sig += whole_sig(cok, tok, end, s)
+        if cok and cval != val:
+            sig.append('whole:string_cast-value-differs')
+        r = ref_stream(d['ty'], s)
+        if r is not None:
+            if r[0] != tok:
+                sig.append('stream:accepted-text-that-must-fail' if tok else 'stream:rejected-text-that-must-convert')
+            else:
+                if tok and r[1] != val:
+                    sig.append('stream:value-differs-from-text')
+                if r[2] != end and OUTSIDE not in sig:
+                    sig.append('stream:end-position-not-behind-the-token')
+    elif k == 1:
+        sm, a, b, end, cok = obs
+        if end < 0 or end > len(s):
+            sig.append(OUTSIDE)
+        sig += whole_sig(cok, sm, end, s)
+        r = ref_pair9(d['ta'], d['tb'], s)
+        if r is not None:
+            if r[0] != sm:
+                sig.append('stream:pair-token-count-differs')
+            elif (r[1], r[2]) != (a, b):
+                sig.append('stream:pair-value-differs-from-text')
+            if r[3] != end and OUTSIDE not in sig:
+                sig.append('stream:pair-end-position-differs')
+    elif k == 2:
+        if len(obs) == 3 and obs[2] == -996:
+            if obs[1] < 0 or obs[1] > len(s):
+                sig.append(OUTSIDE)
+            return sig + ['list:parser-makes-no-progress']
+        t, end = obs[0], obs[1]
+        els, cok = obs[2:2 + t], obs[2 + t]
+        if end < 0 or end > len(s):
+            sig.append(OUTSIDE)
+        sig += whole_sig(cok, t, end, s)
+        r = ref_seq9(d['ty'], s, d['m'] if d['m'] else len(s) + 2)
+        if r is not None:
+            if r[0] != list(els):
+                sig.append('stream:list-elements-differ-from-text')
+            if r[1] != end and OUTSIDE not in sig:
+                sig.append('stream:list-end-position-differs')
+    out = []
+    for x in sig:
+        if x not in out:
+            out.append(x)
+    return out
+
+
+def gen9(seed, tier, add):
+    """cases for the stream-parsed types; its own random stream"""
+    rnd = random.Random(seed * 1000003 + 1615)
+    add([9, 4], 'stream-meta')
+    CH = [b'7', b'k', b'0', b'-', b'+', b'(', b')', b'[', b']', b'\\', b'x', b'\x7f', b'\x80', b'\xff', b'\x01']
+    NUM = [b'0', b'7', b'-1', b'+5', b'12', b'127', b'128', b'255', b'256', b'32767', b'32768', b'-32768', b'-32769', b'65535', b'65536', b'-65535',
+           b'-65536', b'-0', b'010', b'0x10', b'00000000000000000000012', b'99999999999999999999', b'-99999999999999999999', b'-', b'+', b'x', b'imax',
+           b'umax', b'1e3', b'7.5', b'--1', b'+-1', b'- 1']
+    toks = {30: CH + [b'77', b'-1'], 31: CH + [b'200', b'12'], 32: NUM, 33: NUM, CHAR: [b'a', b'\\t', b'7', b'\\'], INT: [b'12', b'-5', b'0', b'2147483647']}
+
+    def S(ty, e, s):
+        return [9, 0, ty, 1 if e else 0, len(s)] + list(s)
+
+    def PR(ta, tb, e, s):
+        return [9, 1, ta, tb, 1 if e else 0, len(s)] + list(s)
+
+    def SQ(ty, m, e, s):
+        return [9, 2, ty, m, 1 if e else 0, len(s)] + list(s)
+    for ty in STREAM:
+        for t in toks[ty]:
+            # alone (the token ends exactly at the end of the string), followed by ',' / text / white space, behind white space
+            for s in (t, t + b',', t + b',8', t + b'x', t + b' ', b' ' + t, b'\t\n ' + t, b' ' + t + b',', t + t, t + b')', t + b']'):
+                add(S(ty, rnd.random() < 0.2, s), 'stream-scalar')
+        for s in (b'', b' ', b'\t \n', b',', b',7'):
+            add(S(ty, rnd.random() < 0.2, s), 'stream-scalar-empty')
+        for _ in range(40 if tier == 'quick' else 400):
+            s = bytes(rnd.choice(b'0123456789-+ ,x\t()[]k\xfe') for _ in range(rnd.randint(1, 7)))
+            add(S(ty, rnd.random() < 0.2, s), 'stream-scalar-random')
+        # lists and arrays: the stream-parsed value as only / first / middle / LAST element
+        for t in toks[ty]:
+            u, w = rnd.choice(toks[ty]), rnd.choice(toks[ty])
+            for s in (t, u + b',' + t, u + b',' + w + b',' + t, t + b',' + u, b'[' + t + b']', b'[' + u + b',' + t + b']', t + b',', u + b',' + t + b',',
+                      u + b',' + t + b'x', b'[' + u + b',' + t, b' ' + u + b', ' + t, u + b',' + w + b',' + t + b',' + u):
+                for m in (0, 1, 2, 3):
+                    if m == 0 or rnd.random() < 0.5:
+                        add(SQ(ty, m, rnd.random() < 0.2, s), 'stream-list' if m == 0 else 'stream-array')
+        for m in (0, 1, 2, 3):
+            for s in (b'', b'[]', b'[', b',', b' '):
+                add(SQ(ty, m, 0, s), 'stream-list-empty')
+        for _ in range(30 if tier == 'quick' else 300):
+            s = bytes(rnd.choice(b'0123456789-+ ,,,x[]k') for _ in range(rnd.randint(1, 9)))
+            add(SQ(ty, rnd.randint(0, 3), rnd.random() < 0.2, s), 'stream-list-random')
+    # pairs: the stream-parsed value as first and as second (= last) component, next to char / int / another stream-parsed type
+    comps = STREAM + [CHAR, INT]
+    for ta in comps:
+        for tb in comps:
+            if ta not in STREAM and tb not in STREAM:
+                continue
+            for _ in range(3):
+                a, b = rnd.choice(toks[ta]), rnd.choice(toks[tb])
+                for s in (a + b',' + b, b'(' + a + b',' + b + b')', a, a + b',', b'(' + a + b')', a + b',' + b + b'x', a + b',' + b + b',', b'(' + a + b',' + b,
+                          b' ' + a + b', ' + b, a + b',' + b + b')'):
+                    add(PR(ta, tb, rnd.random() < 0.2, s), 'stream-pair')
+            for _ in range(4 if tier == 'quick' else 40):
+                s = bytes(rnd.choice(b'0123456789-+ ,,x()k') for _ in range(rnd.randint(1, 8)))
+                add(PR(ta, tb, rnd.random() < 0.2, s), 'stream-pair-random')
+
+
 def oracle(c, obs):
     op = c[0] if c else -1
     if obs == [-998]:
@@ -590,6 +833,8 @@ def _oracle(op, c, obs):
             sig.append('roundtrip:char-nul' if (c[1] == CHAR and obs[0] == 1 and obs[1] % 256 == 0) else 'roundtrip:sweep-%s' % TYNAME[c[1]].replace(' ', '-'))
     elif op == 8:
         sig += oracle8(c, obs)
+    elif op == 9:
+        sig += oracle9(c, obs)
     return sig
 
 
@@ -597,7 +842,7 @@ def nontrivial(c, obs):
     op = c[0]
     if obs == [-998]:
         return False
-    if op in (1, 3, 5, 7, 8):
+    if op in (1, 3, 5, 7, 8, 9):
         return True
     if op in (0, 2, 4):
         return obs[0] != 0 or (c[3] if op != 2 else c[4]) >= 2
@@ -639,6 +884,17 @@ def describe(c):
                     lst(d['ty'], d['l']), esc(bytes([d['d'] % 256])), lst(d['ty'], d['l2']))
             if d['k'] == 4:
                 return 'accu = "["; xconvert(accu, %s); accu += "]"; then string_cast(accu)' % lst(d['ty'], d['l'])
+        if op == 9:
+            d = dec9(c)
+            st = ' with stale errno=ERANGE' if d.get('e') else ''
+            if d['k'] == 0:
+                return 'xconvert/string_cast<%s>("%s")%s (stream fall back parser)' % (TYNAME.get(d['ty']), esc(d['s']), st)
+            if d['k'] == 1:
+                return 'xconvert/string_cast<pair<%s,%s>>("%s")%s (stream fall back parser)' % (TYNAME.get(d['ta']), TYNAME.get(d['tb']), esc(d['s']), st)
+            if d['k'] == 2:
+                return 'xconvert/string_cast<%s>("%s")%s (stream fall back parser)' % (
+                    ('vector<%s>' % TYNAME.get(d['ty'])) if d['m'] == 0 else '%s[%d]' % (TYNAME.get(d['ty']), d['m']), esc(d['s']), st)
+            return '<climits> of the narrow types'
         if op == 7:
             return 'sweep stringTo(toString(v)) for %s v in %d..%d' % (TYNAME.get(c[1]), c[2], c[3])
     except Exception:
@@ -970,6 +1226,7 @@ def gen(seed, tier):
                 add([4, ty, 0, len(s)] + list(s), 'enum-list-parse')
             for (ta, tb, s) in ((ty, INT, k + b',1'), (INT, ty, b'1,' + k), (ty, ty, k + b',' + keys[0]), (ty, ty, b'(' + keys[-1] + b',' + k + b')')):
                 add([2, ta, tb, 0, len(s)] + list(s), 'enum-pair-parse')
+    gen9(seed, tier, add)
     return out
 
 
@@ -980,6 +1237,10 @@ def shrink(case, fails):
         hdr, ln = 3, c[3]
     elif op == 2:
         hdr, ln = 4, c[4]
+    elif op == 9 and c[1] == 0:
+        hdr, ln = 4, c[4]
+    elif op == 9 and c[1] in (1, 2):
+        hdr, ln = 5, c[5]
     elif op == 5:
         vs = c[3:3 + c[2]]
         changed = True
@@ -1062,15 +1323,18 @@ RULE = ('cases = one call group of the conversion API per case: (a) xconvert+str
         'numeral alphabet, each with errno clean and with stale errno=ERANGE; (b) toString then stringTo of boundary/power-of-10/random values of every '
         'integer type, every bool, all 256 chars, every enum constant; (c) pairs and vectors over {bool,char,int,unsigned,long long,unsigned long long,Value_t,Tuple_t} '
         'in both directions incl. the empty vector, plus vectors of each harness enum and pairs <E,int> <int,E> <E,E> whose enum component is every number from min-1 to max+1 in several spellings next to keys; (c2) lists written into NON-EMPTY accumulators: toString(a, list), toString(a, b, list), the iterator-range writer with default and custom separators appended to arbitrary prefixes, '
-        'a second list behind a delimiter, the bracketed form - empty, one-element and longer lists of every element type in each position, read back through the real parsers; (d) implementation-side sweeps of the value round trip (thorough tier: all 2^32 values of int and of unsigned). '
+        'a second list behind a delimiter, the bracketed form - empty, one-element and longer lists of every element type in each position, read back through the real parsers; (c3) the types WITHOUT a typed overload, parsed by the stream fall back template (signed char, unsigned char, short, unsigned short; op 9, text behind a guard character): every token - single characters incl. signs, brackets, backslash, 0x7f/0x80/0xff; numerals at 127/128/255/256/32767/32768/-32768/-32769/65535/65536/-65535/-65536, 010, 0x10, 23-digit runs, bare signs, keywords - '
+        'alone (ending exactly at the end of the string), followed by , / text / blank / ) / ], behind white space; as only / first / middle / LAST element of vector<T> and of the arrays T[1..3] (brackets, trailing separator, unclosed bracket), as first and second component of pairs next to char / int / another such type, random strings; clean and stale errno; (d) implementation-side sweeps of the value round trip (thorough tier: all 2^32 values of int and of unsigned). '
         'non-trivial = a print/back or sweep case, an accepted parse, or a string of >= 2 bytes; distinct = distinct case tuples')
 TRUSTED_BASE = ['strtoll/strtoull modelled per ISO C 7.22.1.4 ("C" locale, unbounded accumulator, clamp + ERANGE, strtoull negates modulo 2^64); validated against glibc by the correspondence run on every generated string',
-                'LP64 <climits> values in tools/consts/C16.py (compared with the real ones by harness op 6)',
+                'std::istream >> signed char / unsigned char / short / unsigned short modelled per ISO C++ [istream.extractors] / [facet.num.get.virtuals] (skipws|dec, classic locale); validated against libstdc++ by the correspondence run',
+                'LP64 <climits> values in tools/consts/C16.py (compared with the real ones by harness ops 6 and 9 4)',
                 'props/C16.py oracle (python big integers, own numeral denotation and own parse of the enum macros)',
                 'std::string/std::vector/std::pair as value containers']
 ASSUMPTIONS = ['strings are NUL-terminated byte strings in the "C" locale; char is the 8-bit signed char of x86-64',
                'the base of a numeral is the one announced by its first two characters (0x/0X hexadecimal, 0 followed by an octal digit octal, otherwise decimal with optional white space and sign), as detectBase implements it: "-010" is decimal -10',
-               'double and the stream fall-back parser are outside the property']
+               'double is outside the property; of the types served by the stream fall-back parser signed char, unsigned char, short and unsigned short are exercised (std::istream >> T modelled per ISO C++, classic locale, validated by the correspondence run), float / long double are not',
+               'for the stream-parsed types the oracle demands what the existing code documents (istream semantics: 8-bit targets receive ONE character, short / unsigned short decimal only) plus end position inside the string, errno untouched, string_cast iff nothing is left; that an 8-bit INTEGER target reads "7" as 55 is reported as a finding, not yet judged']
 LEVEL_TEXT = ('Machine-checked proofs (Coq) about an executable model of detectBase/parseSigned/parseUnsigned/xconvert/EnumClass/convert_seq/string_cast and the printers: '
               'round trip parse(print v) = v for ALL values of int, unsigned, long, unsigned long, long long, unsigned long long (LP64, extremes and the printed word umax included, '
               'for clean and stale errno, also when followed by a separator), bool, char (NUL refuted); accepts-only: an accepted text denotes exactly the returned value in its detected base '
@@ -1082,6 +1346,7 @@ LEVEL_TEXT = ('Machine-checked proofs (Coq) about an executable model of detectB
               'char "[" as first element of a list (each exclusion proved necessary for every value of that shape, not only by a witness); accepts-only for every scalar type, pairs and lists on arbitrary strings: '
               'the input decomposes into optional brackets, element texts and separators, every delivered element is the denotation of its own text and lies in the range of its type, the end position lies inside the string. '
               'Appending list writer: for EVERY accumulator content and separator exactly accu ++ join(sep, element texts) is produced (c16_list_append), the appended part and toString(a, list) / toString(a, b, list) read back component by component (c16_list_append_roundtrip, c16_tostring2/3_roundtrip). '
+              'Stream-parsed types (fall back template, istream >> T modelled): for every string the end position lies inside the string, an accepted text consumes at least one character, errno is untouched (c16_stream_end_inside), short / unsigned short values lie in range (c16_stream_short_in_range), 8-bit targets receive a character code (c16_stream_8bit_is_a_character, _number_refuted); the generic pair / sequence templates are those of the typed section (c16_pair/seq_template_instance). '
               'Model tied to the code by translator-regenerated tables and a differential run against the sanitizer build.')
 LEVEL_NOTE = ('Trusted: Coq kernel/vm_compute, extraction+driver (sample cross-checked by vm_compute), harness, translator; libc strtoll/strtoull modelled (validated by correspondence); '
               'known findings: empty vector, char NUL, leading "(" / "[" char in pair / vector do not round-trip.')
